@@ -29,8 +29,10 @@ def frag_ali_len(fdef):
         if not isinstance(body, list):
             continue
         for i, s in enumerate(body):
-            if isinstance(s, ast.Assign) and ast.unparse(s) == "Tp = ali.size(0)" and i + 1 < len(body) and isinstance(body[i + 1], ast.If) \
-                    and ast.unparse(body[i + 1].test) == "Tp != T":
+            # `<v> = ali.size(0)` (or ali.shape[0] / len(ali)) followed by `if <v> != T:` - whatever the local is called
+            if isinstance(s, ast.Assign) and len(s.targets) == 1 and isinstance(s.targets[0], ast.Name) \
+                    and ast.unparse(s.value) in ("ali.size(0)", "ali.shape[0]", "len(ali)") and i + 1 < len(body) and isinstance(body[i + 1], ast.If) \
+                    and ast.unparse(body[i + 1].test) in ("%s != T" % s.targets[0].id, "T != %s" % s.targets[0].id, "not %s == T" % s.targets[0].id):
                 return body[i:i + 2]
     raise AssertionError("alignment length block not found")
 
@@ -103,7 +105,10 @@ def vcs():
         fdef, mod = I.get_function(M, "_utts_in_dir")
         return I.call_def(fdef, mod, ["dir", P, S], {})
 
-    stubs = {"posix.listdir": lambda I, d: [X], "builtins.set": lambda I, it=(): list(I.iterate(it))}
+    class SetAsList(list):  # set() of the one generic file name: a list (add / update accepted by the interpreter's method table)
+        set_abstraction = True
+
+    stubs = {"posix.listdir": lambda I, d: [X], "builtins.set": lambda I, it=(): SetAsList(I.iterate(it))}
     sel = z3.And(z3.PrefixOf(P, X), z3.SuffixOf(S, X))
 
     def post_sel(p):
